@@ -6,7 +6,7 @@ from fractions import Fraction
 
 VERIF = os.path.dirname(os.path.dirname(os.path.abspath(__file__)))
 COQ = os.path.join(VERIF, 'coq')
-REPO = '/repo'
+REPO = os.environ.get('VERIF_REPO', '/repo')   # development override only; registered commands use /repo
 SHARD = 250
 
 FORBIDDEN = re.compile(r'\b(Admitted|admit|Axiom|Parameter|Conjecture|Unset Guard|bypass_check|Admit Obligations)\b|-type-in-type|-impredicative-set')
@@ -77,10 +77,12 @@ def coq_sources():
                     files.append(f'{d}/{f}')
     return files
 
-def gate():
+def gate(dirs=None):
     """No Admitted/Axiom/... anywhere in the development (comments included: stricter)."""
     bad = []
     for f in coq_sources():
+        if dirs is not None and f.split('/')[0] not in dirs:
+            continue
         for n, line in enumerate(open(os.path.join(COQ, f)), 1):
             if FORBIDDEN.search(line):
                 bad.append(f'{f}:{n}: {line.strip()}')
@@ -280,8 +282,8 @@ def run_check(pid, tier, seed, replay=None):
         print('replay passes on the current tree')
         return 0
 
-    # 0. gate
-    bad = gate()
+    # 0. gate (this property's files and the shared ones; ./check --setup gates everything)
+    bad = gate({'Common', plugin.COQ_DIR} | set(getattr(plugin, 'EXTRA_COQ_DIRS', ())))
     if bad:
         print('FRAMEWORK ERROR: forbidden construct in the development:\n' + '\n'.join(bad))
         return 2
